@@ -67,7 +67,7 @@ func runC16(env *lib.Env, rep *lib.Report) {
 	deepCaps := []int{10, 11, 12, 14, 16, 24, 48}
 	cfgs := []c16Cfg{
 		{"real/five-wide-tables", "five-wide-tables", worldOpt{}, caps, alphaOpt{Tables: []string{"w0", "w3", "w4"}, Inserts: []int{1, 4}, Updates: true, Deletes: true}, d},
-		{"real/t1x60-t2x30", "t1x60-t2x30", worldOpt{}, caps, alphaOpt{Tables: []string{"t1", "t2"}, Inserts: []int{1, 4}, BigInsert: true, Updates: true, Deletes: true}, d},
+		{"real/t1x60-t2x30", "t1x60-t2x30", worldOpt{}, caps, alphaOpt{Tables: []string{"t1", "t2"}, Inserts: []int{1, 4}, BigInsert: true, EmptyInsert: true, FailingInsert: true, Updates: true, Deletes: true}, d},
 		{"leaf3-int3/small-caps-deep", "small-caps-deep", worldOpt{Leaf: 3, Internal: 3}, deepCaps, alphaOpt{Tables: []string{"t1", "t2"}, Inserts: []int{1, 2}, Updates: true, Deletes: true}, d},
 	}
 	rep.Bounds["capacities"] = fmt.Sprintf("%v (real node capacity), %v (leaf 3 / internal 3, four-level trees), each against 10000", caps, deepCaps)
